@@ -905,6 +905,9 @@ class Address(object):
                 self.redeemscript = b'\0' + varstr(self.hash_bytes)
                 # overwrite hash_bytes with hash of redeemscript
                 self.hash_bytes = hash160(self.redeemscript)
+            if len(self.hash_bytes) != 20:
+                raise BKeyError("A base58 address contains a hash of 20 bytes, use bech32 encoding for script type %s" %
+                                self.script_type)
             if self.prefix is None:
                 if self.script_type in ['p2sh', 'p2sh_p2wpkh', 'p2sh_p2wsh', 'p2sh_multisig'] or \
                         self.witness_type == 'p2sh-segwit':
